@@ -1,6 +1,7 @@
 //! Verification harness: replays TLC-generated behaviours into the real code
 //! (S->I) and records executions of the real code for TLC validation (I->S).
 mod backends;
+mod miri_sample;
 mod r_generic;
 mod r_guard;
 mod r_iseq;
@@ -130,6 +131,10 @@ fn main() {
             for f in fails {
                 rep.finding(Class::Panic, &format!("concurrent child process failed: {f}"), serde_json::json!({}));
             }
+        }
+        "miri-sample" => {
+            miri_sample::run(args.val("--in").expect("--in"), seed);
+            return;
         }
         "replay-iter" => {
             let vs = read_ndjson(args.val("--in").expect("--in"));
